@@ -12,7 +12,10 @@ open Url
 theorem rfindSlash_ge (s : Str) : -1 ≤ rfindSlash s := by
   induction s with
   | nil => simp [rfindSlash]
-  | cons c cs ih => simp only [rfindSlash]; split <;> [omega; (split <;> omega)]
+  | cons c cs ih =>
+    simp only [rfindSlash]; split
+    · omega
+    · split <;> omega
 
 theorem rfindSlash_nonneg_iff (s : Str) : 0 ≤ rfindSlash s ↔ '/' ∈ s := by
   induction s with
@@ -192,20 +195,13 @@ theorem cleanRel_head {r : Str} (h : CleanRel r) : r.head? ≠ some '/' := by
 
 /-! ### `str(Path(p))` -/
 
-theorem pathStr_rel (p : Str) (h : p.head? ≠ some '/') : pathStr p = normRel p := by
-  have hs : splitroot p = ([], p) := by
-    cases p with
-    | nil => simp [splitroot]
-    | cons c cs =>
-      have hc : c ≠ '/' := by simpa using h
-      simp [splitroot, hc]
-  simp only [pathStr, hs, normRel, segments, List.nil_append]
-  cases hj : (splitSlash p).filter realSeg with
+theorem dot_if_empty (l : List Str) (hmem : ∀ seg ∈ l, '/' ∉ seg ∧ seg ≠ []) :
+    (if (joinSlash l).isEmpty then ['.'] else joinSlash l) = if l = [] then ['.'] else joinSlash l := by
+  cases l with
   | nil => simp [joinSlash]
   | cons a r =>
     have hne : joinSlash (a :: r) ≠ [] := by
-      have hmem : a ∈ segments p := by simp [segments, hj]
-      have := (segments_no_slash p a hmem).2
+      have := (hmem a (List.mem_cons_self ..)).2
       cases a with
       | nil => exact absurd rfl this
       | cons x xs =>
@@ -213,6 +209,16 @@ theorem pathStr_rel (p : Str) (h : p.head? ≠ some '/') : pathStr p = normRel p
         | nil => simp [joinSlash]
         | cons b r' => rw [joinSlash_cons_cons]; simp
     simp [hne]
+
+theorem pathStr_rel (p : Str) (h : p.head? ≠ some '/') : pathStr p = normRel p := by
+  have hs : splitroot p = ([], p) := by
+    cases p with
+    | nil => simp [splitroot]
+    | cons c cs =>
+      have hc : c ≠ '/' := by simpa using h
+      simp [splitroot, hc]
+  simp only [pathStr, hs, normRel, List.nil_append]
+  exact dot_if_empty _ (segments_no_slash p)
 
 theorem pathStr_abs (r : Str) : pathStr ('/' :: r) = normAbs ('/' :: r) := by
   unfold pathStr normAbs
@@ -226,13 +232,9 @@ theorem pathStr_abs (r : Str) : pathStr ('/' :: r) = normAbs ('/' :: r) := by
       | cons d ds =>
         by_cases hd : d = '/'
         · subst hd
-          have h3 : (List.takeWhile (· == '/') ('/' :: '/' :: '/' :: ds)).length ≠ 2 := by
-            simp [List.takeWhile]
-          have hseg := segments_dropWhile ('/' :: '/' :: '/' :: ds)
-          simp only [splitroot, List.take, List.drop] at *
+          have hseg := segments_dropWhile ds
           simp only [segments] at hseg
-          simp [h3, segments, hseg]
-          simp [splitSlash, realSeg]
+          simp [splitroot, List.takeWhile, List.dropWhile, segments, hseg, splitSlash, realSeg]
         · have hdb : (d == '/') = false := by simpa using hd
           simp [splitroot, List.takeWhile, List.dropWhile, hdb, hd, segments]
     · have hcb : (c == '/') = false := by simpa using hc
